@@ -62,7 +62,7 @@ M_SEQ_TR = 'sequence:transmission:degenerate-k==xsec'
 M_SEQ_EM = 'sequence:emission:degenerate-k==xsec'
 M_PARTS = 'transmission:parts:degenerate-k==xsec'
 REQUIRED = dict(monitors=[M_TR, M_TRT, M_EM, M_EMCF, M_WEXP, M_RANGE, M_JENSEN, M_EMTAU, M_JDEPTH, M_EMK, M_SEQ_TR, M_SEQ_EM, M_PARTS],
-                classes=['parts:molecule-of-several', 'ktable-container:hdf5', 'ktable-container:pickle', 'sequence:pressure-moved-by:array-refilled-in-place', 'sequence:pressure-moved-by:fitting-parameters', 'sequence:add:Rayleigh', 'sequence:set', 'sequence:rebuild', 'sequence:fault', 'sequence:fault-fired', 'sequence:interpolation-mode-switched', 'grid:thousands-of-points', 'family:transmission', 'family:emission', 'ngauss:1', 'ngauss:2-4', 'ngauss:5+',
+                classes=['parts:molecule-of-several', 'ktable-container:hdf5', 'ktable-container:pickle', 'sequence:pressure-moved-by:array-refilled-in-place', 'sequence:pressure-moved-by:fitting-parameters', 'sequence:add:Rayleigh', 'sequence:set', 'sequence:rebuild', 'sequence:fault', 'sequence:fault-fired', 'sequence:interpolation-mode-switched', 'grid:thousands-of-points', 'sequence:dozens-of-pressure-moves-earlier-ranges-again', 'family:transmission', 'family:emission', 'ngauss:1', 'ngauss:2-4', 'ngauss:5+',
                          'weights:dirichlet', 'weights:gauss-legendre', 'weights:uniform',
                          'magnitude:transparent', 'magnitude:thin', 'magnitude:mixed', 'magnitude:saturating',
                          'molecules:1', 'molecules:2+', 'interp:linear', 'interp:exp', 'k:degenerate',
@@ -195,9 +195,12 @@ def draw_weights(rng, ng):
     return w / w.sum(), kind
 
 
-def make_case(rng, long=False):
+def make_case(rng, long=False, nlayers=None):
     for _ in range(50):
-        if long:
+        if nlayers is not None:
+            spec = world.random_world_spec(rng, nlayers=nlayers, common_grid=bool(rng.random() < 0.7), nwn=int(rng.integers(3, 10)),
+                                           tkind=['isothermal', 'guillot'][rng.integers(0, 2)])
+        elif long:
             # a spectral grid of thousands of points (never a round number), few layers, one molecule: blocked loops
             # over wavenumber have a last, partial block
             spec = world.random_world_spec(rng, nlayers=int(rng.choice([2, 3, 5])), n_active=1,
@@ -622,14 +625,22 @@ def wl_sequence(ctx, rng):
     """Degenerate k again, but on model objects that live on: after the first evaluation contributions are added
     (without and with a rebuild), planet parameters are written and the model is evaluated again after every step, in
     cross-section mode and in k-table mode alike.  Every step's pair is judged by the degenerate equality."""
-    spec = make_case(rng)
+    long = ctx.case['index'] % 8 == 5
+    spec = make_case(rng, nlayers=30 if long else None)
     ng = spec['ngauss']
     observe_case(ctx, spec, True)
     ktabs = {m: np.repeat(t['xsec'][..., None], ng, axis=-1) for m, t in spec['tables'].items()}
     have = [c if isinstance(c, str) else c['name'] for c in spec['contributions']]
     steps = []
+    if long:
+        # a long history on the k-table objects the cache holds: thirty layers, the pressure range moved two dozen times
+        # (hundreds of distinct (T, P) requests per table), earlier ranges coming back at the end
+        moves = [{'op': 'pressure', 'fmax': float(10 ** rng.uniform(-0.3, 0.3)), 'fmin': float(10 ** rng.uniform(-0.3, 0.3))}
+                 for _ in range(int(rng.integers(20, 28)) if ctx.tier == 'quick' else int(rng.integers(40, 120)))]
+        steps = moves + [dict(moves[int(k)]) for k in rng.integers(0, len(moves) - 2, 7)]     # (from anywhere in the history)
+        ctx.observe('sequence:dozens-of-pressure-moves-earlier-ranges-again')
     no_zero = all(float(np.min(t['xsec'])) > 0.0 for t in spec['tables'].values())
-    for _ in range(int(rng.integers(2, 5))):
+    for _ in range(0 if long else int(rng.integers(2, 5))):
         k = rng.integers(0, 6)
         if k == 5:
             if no_zero:                       # (a table with exact zeros is outside the 'exp' formula's domain)
